@@ -303,6 +303,10 @@ class StdFunction(Plugin):
         return None
 
     def assign_other(self, unit, f, rhs):
+        if rhs['kind'] == 'LambdaExpr':
+            # a closure stored into a std::function: engaged, identity abstract; its body is not part of the unit unless listed separately
+            unit.dropped.append('body of a lambda stored into std::function (in %s)' % unit.cur)
+            return '(*v_function_set_closure(%s))' % f
         return None
 
     def free_call(self, unit, name, rd, args, n):
